@@ -73,7 +73,8 @@ type qparam struct {
 type c07target struct {
 	path string
 	s    *tree.SNode
-	data *tree.Cont
+	data *tree.Cont // content at the target; for a list target: its first row (for the generators only)
+	list *tree.List // non-nil: the target is the list itself (c07chain.go)
 }
 
 func c07ErrClass(err error) string {
@@ -387,7 +388,7 @@ func (g *c07gen) rangeP() qparam {
 	return g.windowFor(p, g.r.Intn(12))
 }
 func (g *c07gen) maxNode() qparam {
-	c := countNodes(g.t.s, g.t.data)
+	c := g.t.nodes()
 	v := gen.Pick(g.r, []int{0, 1, c - 1, c, c + 1, c / 2, 10000})
 	if v < 0 {
 		v = 0
@@ -555,13 +556,13 @@ func c07Case(ctx *core.Ctx, r *gen.Rng, m *meta.Module, root *tree.SNode, yang s
 
 // C07: query parameters return exactly the defined projection of the full read.
 func C07(ctx *core.Ctx) error {
-	ctx.Rule = "query = (schema: generated with lists, defaults, leaf-lists, config-false sub-trees, or the hand-written one with config-false leaves and nested lists) x data x target selection (root, container, list entry) x parameter string: every depth 1..8, every content value, with-defaults, field-path expressions enumerated over the schema (nested, alternatives, groups, unknown names) for fields and fc.xfields, row windows (empty, inverted, open, out of range) on every list, fc.max-node-count around the container count, invalid values, all pairs and random triples of parameters; two spellings of the query string; via Constrain or Find(path?query); distinct by SHA-256 of the case term; non-trivial = at least one parameter and a non-empty target"
+	ctx.Rule = "query = (schema: generated with lists, defaults, leaf-lists, config-false sub-trees, or the hand-written one with config-false leaves and nested lists) x data x target selection (root, container, list entry) x parameter string: every depth 1..8, every content value, with-defaults, field-path expressions enumerated over the schema (nested, alternatives, groups, unknown names) for fields and fc.xfields, row windows (empty, inverted, open, out of range) on every list, fc.max-node-count around the container count, invalid values, all pairs and random triples of parameters; two spellings of the query string; via Constrain or Find(path?query); chains = the parameters given in 2-3 steps (Find(piece?q1) ... Find(rest?q2) / Constrain(q3), the path to the target split over the steps at random, steps without parameters included): a small depth or a tight fc.max-node-count first and another parameter later, the same parameter in two steps, a later depth, an invalid value in some step, random steps (fc.range in at most one step of a chain, except the two-windows chains: fc.range on the same list in two steps, known finding 1); list targets = the read starts at a LIST (not an entry) that holds rows (in a copy of the data whose first rows leave their leaves with a default unset): every depth 1..4(8), each parameter alone (windows with an empty selector naming the target list itself), pairs, chains; distinct by SHA-256 of the case term; non-trivial = at least one parameter and a non-empty target"
 	ctx.ShardMax = 100000 // many small shards: the classification runs in parallel
 	c07Prelude = nil
 	defer func() {
 		// core.Ctx writes Imports into "From YV Require Import Base.Verdict %s." of every shard:
 		// the shared definitions ride behind the import list (the final '.' closes the last one)
-		ctx.Imports = "Val.Model Tree.Schema Tree.PathExpr Tree.Params Check.C07Check.\nImport ListNotations.\nOpen Scope Z_scope.\n" +
+		ctx.Imports = "Val.Model Tree.Schema Tree.PathExpr Tree.Params Tree.Chain Check.C07Check.\nImport ListNotations.\nOpen Scope Z_scope.\n" +
 			strings.Join(c07Prelude, ".\n")
 	}()
 	r := gen.New(ctx.Seed)
@@ -593,10 +594,12 @@ func C07(ctx *core.Ctx) error {
 		for k := 1; k < targetsPer && len(targets) > 1; k++ {
 			chosen = append(chosen, targets[1+dr.Intn(len(targets)-1)])
 		}
+		tgtTerms := make([]string, len(chosen))
 		for ti, t := range chosen {
 			g := &c07gen{r: dr.Fork(uint64(ti)), t: t}
 			g.paths, g.lists = schemaPaths(t.s, 3)
 			kidsName, dataName := c07Shared(t)
+			tgtTerms[ti] = emit.App("TCont", kidsName, dataName)
 			add := func(label string, ps ...qparam) error {
 				return c07Case(ctx, g.r, m, root, yang, data, t, kidsName, dataName, ps, label)
 			}
@@ -705,6 +708,46 @@ func C07(ctx *core.Ctx) error {
 			// everything at once
 			if err := add("all7", g.byKind(0), g.byKind(1), g.byKind(2), g.byKind(3), g.byKind(4), g.byKind(5), g.byKind(6)); err != nil {
 				return err
+			}
+		}
+		// parameters applied in several steps on the way to / at the same targets, and a list as the
+		// target of the read (c07chain.go); own random stream: the cases above do not depend on it
+		xr := dr.Fork(0xC4A1)
+		for ti, t := range chosen {
+			g := &c07gen{r: xr.Fork(uint64(ti)), t: t}
+			g.paths, g.lists = schemaPaths(t.s, 3)
+			tgtTerm := tgtTerms[ti]
+			addChain := func(label string, queries ...[]qparam) error {
+				return c07ChainCase(ctx, g.r, m, root, yang, data, g.t, tgtTerm, queries, label)
+			}
+			if err := c07Chains(ctx, g, ctx.Scale(8, 16), addChain); err != nil {
+				return err
+			}
+		}
+		// own copy of the data: the first row of every list leaves its leaves with a default unset
+		// (the full read of a list selection fills them in)
+		ldata := c07UnsetDefaults(root, data)
+		if lts := c07ListTargets(root, ldata); len(lts) > 0 {
+			for k := 0; k < ctx.Scale(1, 2) && k < len(lts); k++ {
+				t := lts[xr.Intn(len(lts))]
+				if k == 0 {
+					// the first one: a list whose rows hold something below them and leave a leaf with a
+					// default unset (the full read of a list fills it in), when there is one
+					for _, c := range lts {
+						if c.listScore() > t.listScore() {
+							t = c
+						}
+					}
+				}
+				g := &c07gen{r: xr.Fork(uint64(100 + k)), t: t}
+				g.paths, g.lists = schemaPaths(t.s, 3)
+				tgtTerm := c07SharedTarget(t)
+				addChain := func(label string, queries ...[]qparam) error {
+					return c07ChainCase(ctx, g.r, m, root, yang, ldata, g.t, tgtTerm, queries, label)
+				}
+				if err := c07ListTargetCases(ctx, g, addChain); err != nil {
+					return err
+				}
 			}
 		}
 	}
